@@ -10,7 +10,7 @@ pub fn ebyte(seed: u64, i: u64) -> u8 {
     (mix(seed ^ 0xA5A5_5A5A_DEAD_BEEF, i) >> 24) as u8
 }
 
-#[derive(Debug)]
+#[derive(Debug, Clone)]
 pub enum SimError {
     /// Injected by the simulated entity (fault id).
     Injected(u32),
@@ -36,6 +36,7 @@ const WIN: usize = 8;
 
 /// A `Buf` that is either literal bytes (what http-serve creates through `From`) or a *virtual*
 /// slice of the entity: `remaining()` is its true length, `chunk()` a small real window.
+#[derive(Clone)]
 pub enum SimData {
     Lit { data: Vec<u8>, pos: usize },
     Static { data: &'static [u8], pos: usize },
